@@ -301,8 +301,10 @@ struct Enum {
   const std::vector<int> &w;
   long limit;
   bool overflow = false;
+  std::vector<int> attrOf; // optional: attribute index printed for the token at position i (default: i)
   std::vector<std::vector<std::vector<char>>> D; // D[sym][i][j]: sym derives w[i..j)
   Enum(const Gram &g_, const std::vector<int> &w_, long lim) : g(g_), w(w_), limit(lim) { build(); }
+  Enum(const Gram &g_, const std::vector<int> &w_, long lim, const std::vector<int> &attrs) : g(g_), w(w_), limit(lim), attrOf(attrs) { build(); }
   bool seqDer(const std::vector<int> &rhs, size_t p, int i, int j) {
     if (p == rhs.size()) return i == j;
     int s = rhs[p];
@@ -327,7 +329,7 @@ struct Enum {
   std::map<std::tuple<int, int, int>, VT> memo;
   std::string termStr(int t, int pos) {
     if (t == g.errT) return "ERR";
-    return "t" + std::to_string(g.tcode[t]) + "@" + std::to_string(pos);
+    return "t" + std::to_string(g.tcode[t]) + "@" + std::to_string(attrOf.empty() ? pos : attrOf[pos]);
   }
   void seqEnum(const Rule &ru, size_t p, int i, int j, std::vector<Tr> &cur, std::vector<std::vector<Tr>> &out) {
     if (overflow) return;
@@ -378,6 +380,41 @@ struct Enum {
     return ch[ru.transl[0]];
   }
 };
+
+// ---------------------------------------------------------------- augmented grammar (as the manual describes it)
+//   $S : start $eof            (translation of start)
+//   $S : error $eof            (no translation) unless a rule of the start symbol begins with `error'
+struct Aug {
+  Gram g;
+  int eofT = -1;
+  bool implicitRule = false;
+  int mapSym(const Gram &o, int s) const { return s < o.nT ? s : s + 1; }
+};
+inline Aug augment(const Gram &o) {
+  Aug a;
+  Gram &g = a.g;
+  g.nT = o.nT + 1; g.nN = o.nN + 1; g.errT = o.errT;
+  g.tcode = o.tcode; g.tname = o.tname; g.tcode.push_back(-1); g.tname.push_back("$eof");
+  a.eofT = o.nT;
+  g.nname = o.nname; g.nname.push_back("$S");
+  int Sx = g.nT + o.nN;
+  Rule r0; r0.lhs = Sx; r0.rhs = {a.mapSym(o, o.start), a.eofT}; r0.has_anode = false; r0.cost = 0; r0.transl = {0};
+  g.rules.push_back(r0);
+  bool has = false;
+  for (auto ru : o.rules) {
+    if (ru.lhs == o.start && !ru.rhs.empty() && ru.rhs[0] == o.errT) has = true;
+    ru.lhs = a.mapSym(o, ru.lhs);
+    for (int &x : ru.rhs) x = a.mapSym(o, x);
+    g.rules.push_back(ru);
+  }
+  if (!has) {
+    Rule r1; r1.lhs = Sx; r1.rhs = {o.errT, a.eofT}; r1.has_anode = false; r1.cost = 0;
+    g.rules.push_back(r1);
+    a.implicitRule = true;
+  }
+  g.start = Sx;
+  return a;
+}
 
 // ---------------------------------------------------------------- printing
 inline std::string ruleStr(const Gram &g, const Rule &r) {
